@@ -58,7 +58,7 @@ func (x *Exec) xclosedKey(field string) string {
 }
 
 func (x *Exec) chanInit(st *State, r, capT Term, elemKey string) {
-	ck := x.chKey("chClosed", sortBool)
+	ck := x.chKey("chClosed:"+elemKey, sortBool)
 	x.setHeap(st, ck, tStore(x.getHeap(st, ck).(Term), r, tFalse))
 	pk := x.chKey("chCap", x.idxSort())
 	x.setHeap(st, pk, tStore(x.getHeap(st, pk).(Term), r, capT))
@@ -80,7 +80,15 @@ func (x *Exec) closedTerm(e ast.Expr, c Term, st *State) Term {
 	if k, a := x.chanAttr(e); a != nil && a.ExtClose {
 		return x.getHeap(st, x.xclosedKey(k)).(Term)
 	}
-	return tSelect(x.getHeap(st, x.chKey("chClosed", sortBool)).(Term), c)
+	return tSelect(x.getHeap(st, x.chClosedKey(x.info.TypeOf(e))).(Term), c)
+}
+
+func (x *Exec) chClosedKey(t types.Type) string {
+	ct, ok := t.Underlying().(*types.Chan)
+	if !ok {
+		panic("chClosedKey: not a channel type " + t.String())
+	}
+	return x.chKey("chClosed:"+typeKey(ct.Elem()), sortBool)
 }
 
 func (x *Exec) closeChan(e ast.Expr, c Term, st *State, pos token.Pos) {
@@ -99,7 +107,7 @@ func (x *Exec) closeChan(e ast.Expr, c Term, st *State, pos token.Pos) {
 		x.setHeap(st, key, tTrue)
 		return
 	}
-	ck := x.chKey("chClosed", sortBool)
+	ck := x.chClosedKey(x.info.TypeOf(e))
 	cl := x.getHeap(st, ck).(Term)
 	what := "close of closed channel"
 	if k != "" {
@@ -194,7 +202,7 @@ func (x *Exec) recv(chE ast.Expr, st *State, pos token.Pos, blocking bool) Value
 		if a.ExtClose {
 			x.setHeap(st, x.xclosedKey(x.chanField(chE)), tTrue)
 		} else {
-			ck := x.chKey("chClosed", sortBool)
+			ck := x.chClosedKey(x.info.TypeOf(chE))
 			x.setHeap(st, ck, tStore(x.getHeap(st, ck).(Term), c, tTrue))
 		}
 		return x.zeroValue(ct.Elem())
@@ -342,9 +350,27 @@ func (x *Exec) goStmt(s *ast.GoStmt, st *State) {
 	for _, tok := range fc.Consumes {
 		x.setHeap(st, x.tokKey(tok), tFalse)
 	}
-	// the spawned thread's parameters are published
+	// publication: the lock invariants of the object handed to the new thread must hold now
 	if r, ok := recv.(Term); ok {
-		delete(st.local, r.S)
+		rt := sig.Recv().Type()
+		for _, lk := range sortedKeys(x.prog.Contracts.LockInvs) {
+			li := x.prog.Contracts.LockInvs[lk]
+			if structName(rt) != li.RecvType {
+				continue
+			}
+			env := x.frameEnv(st)
+			env.vars = copyVars(env.vars)
+			env.vars[li.RecvName] = TV{V: recv, T: rt}
+			for _, c := range li.Clauses {
+				for _, g := range x.specConjuncts(c.Expr, env) {
+					x.assert(st, "lockinv-init", "at publication: "+g.label(c.Label), g.t, c.Tags, s.Pos())
+				}
+			}
+		}
+		for k := range st.local {
+			delete(st.local, k)
+		}
+		_ = r
 	}
 	if _, ok := x.prog.Contracts.Ghosts["goroutines"]; ok {
 		k := x.ghostKey("goroutines")
@@ -361,10 +387,10 @@ func (x *Exec) envActions(st *State) {
 		nK := x.vc.fresh(es[0], K.T)
 		nP := x.vc.fresh(es[1], P.T)
 		q := Term{"qe", K.T.Idx}
-		x.assume(st, Term{fmt.Sprintf("(forall ((qe %s)) (! (and (=> %s %s) (= %s (or %s (and %s (not %s))))) :pattern (%s) :pattern (%s)))", K.T.Idx,
+		x.assume(st, Term{fmt.Sprintf("(forall ((qe %s)) (! (and (=> %s %s) (= %s (or %s (and %s (not %s))))) :pattern (%s) :pattern (%s) :pattern (%s) :pattern (%s)))", K.T.Idx,
 			tSelect(nK, q).S, tSelect(K, q).S,
 			tSelect(nP, q).S, tSelect(P, q).S, tSelect(K, q).S, tSelect(nK, q).S,
-			tSelect(nK, q).S, tSelect(nP, q).S), sortBool})
+			tSelect(nK, q).S, tSelect(nP, q).S, tSelect(K, q).S, tSelect(P, q).S), sortBool})
 		x.setHeap(st, kk, nK)
 		x.setHeap(st, pk, nP)
 	}
